@@ -2,10 +2,11 @@
 """Re-runs the target property's quick check against every confirmed seeded change (from /tmp/seedout-*) and writes
 /verif/seeded/<id>/{patch.diff, demo_test.go, notes.md, meta.json}."""
 import os, re, subprocess, sys, json, shutil, glob
-props = sys.argv[1:] or [f"C{i:02d}" for i in range(1, 21)]
+props = [a for a in sys.argv[1:] if len(a) == 3] or [f"C{i:02d}" for i in range(1, 21)]
+variants = [a for a in sys.argv[1:] if len(a) == 1] or list("ABCD")
 for prop in props:
-    for var in "AB":
-        src = f"/tmp/seedout-{prop}"
+    for var in variants:
+        src = f"/tmp/seedout2-{prop}" if var in "CD" else f"/tmp/seedout-{prop}"
         patch = f"{src}/{var}.patch.diff"
         if not os.path.exists(patch): continue
         sid = f"{prop}-{var}"
